@@ -53,7 +53,9 @@ func (e EnumSchema[S, T]) ValidateCompatibility(typeOrData any) error {
 	for _, reflectKey := range validValuesMapField.MapKeys() {
 		var defaultValue T
 		defaultType := reflect.TypeOf(defaultValue)
-		if !reflectKey.CanConvert(defaultType) {
+		// The kinds must agree as well: reflect converts an integer to a string by reading it as a code point,
+		// which made an integer enum {65, 66} pass as the string enum {"A", "B"}.
+		if !reflectKey.CanConvert(defaultType) || reflectKey.Kind() != defaultType.Kind() {
 			return fmt.Errorf("invalid enum value type %s", reflectKey.Type())
 		}
 		keyToCompare := reflectKey.Convert(defaultType).Interface()
